@@ -893,6 +893,10 @@ func (m *repoManager) newUUID(assign *dvid.UUID) (dvid.UUID, dvid.VersionID, err
 		uuid = *assign
 	}
 	m.idMutex.Lock()
+	if _, found := m.uuidToVersion[uuid]; found {
+		m.idMutex.Unlock()
+		return dvid.NilUUID, 0, fmt.Errorf("UUID %s already exists", uuid)
+	}
 	curid := m.versionID
 	m.versionToUUID[curid] = uuid
 	m.uuidToVersion[uuid] = curid
